@@ -118,7 +118,12 @@ func genContent(r *vh.Rand, ext string, bad bool, size int) []byte {
 			b.WriteString(unit(i))
 		}
 		b.WriteString(tail)
-		return []byte(b.String())
+		out := b.String()
+		if (ext == "js" || ext == "mjs") && r.Chance(1, 4) {
+			// no terminator at the end of the file: only the bundle separator keeps the next file apart
+			out = strings.TrimSuffix(strings.TrimSuffix(out, "\n"), " ;") + r.Pick("", "\nlast_call ( 1 )", "\nvar tail_v = 2")
+		}
+		return []byte(out)
 	}
 	// exact size: fill with units, then pad with newlines in a place that is harmless for the format
 	var b strings.Builder
